@@ -13,7 +13,7 @@ META = {
     "note": "assumes snakeoil.compatibility.cmp(a,b) is the three-way comparison (trusted base); regex facts come from the stdlib regex parser applied to the literal patterns",
 }
 META["technique"] += "; " + 'effect analysis (no in-place write to shared objects) on ver_cmp and the comparison methods'
-META["level"] += " Added after the second round of independent changes: " + '(R6) ver_cmp, the CPV/Revision comparison methods and _VersionMatch.match write in place only to objects they created themselves (no memoised list, parameter or module table is edited by a comparison).'
+META["level"] += " (R8) every return of ver_cmp is -1, 0, 1 or a cmp(...) result, because _VersionMatch.match looks the result up in a tuple over (-1, 0, 1)." +  " Added after the second round of independent changes: " + '(R6) ver_cmp, the CPV/Revision comparison methods and _VersionMatch.match write in place only to objects they created themselves (no memoised list, parameter or module table is edited by a comparison).'
 META["technique"] += "; " + 'generic pack G on the anchored files (optional-flag shift, closures outliving a loop iteration, single-pass iterables consumed twice, %-templates built from data, in-place writes to class-level / memoised objects, generators mutating what they yielded, memo keys that are projections)'
 
 PMS_SUFFIXES = ("alpha", "beta", "pre", "rc", "p")
@@ -26,8 +26,14 @@ def regex_literal(ctx, mod, name):
     v = mod.assigns.get(name)
     ctx.require(isinstance(v, ast.Call) and v.args, f"{mod.relpath}: {name} is not a regexp(<literal>) assignment")
     pat = A.try_literal(v.args[0])
-    ctx.require(isinstance(pat, str), f"{mod.relpath}: pattern of {name} is not a literal")
+    if not isinstance(pat, str):
+        from ..core import constfold
+        pat = constfold.try_fold(v.args[0], mod.assigns)  # generated from the tables at import time: still a constant of the program
+    ctx.require(isinstance(pat, str), f"{mod.relpath}: pattern of {name} is neither a literal nor foldable from module-level constants")
     return pat, v
+
+
+from ..core import effects  # noqa: E402
 
 
 def run(ctx):
@@ -54,6 +60,13 @@ def run(ctx):
     tree = rx.parse(pat)
     ngroups = tree.state.groups - 1
     ctx.check("R1", cpv, ngroups == 2, "suffix_regexp-groups", "suffix_regexp has groups (name)(number)", node=node)
+    # `p` is a prefix of `pre`: only the end anchor makes the split independent of the order of the alternatives
+    # (ver_cmp applies the pattern with .match() to one whole suffix chunk)
+    uses = [c for fi in cpv.funcs.values() for c in A.calls(fi.node) if isinstance(c.func, ast.Attribute) and dotted(c.func.value) == "suffix_regexp"]
+    whole = bool(uses) and all(c.func.attr == "fullmatch" for c in uses)
+    ctx.check("R1", cpv, whole or (rx.end_anchored(pat) and (rx.start_anchored(pat) or all(c.func.attr == "match" for c in uses))), "suffix_regexp-anchored",
+              "suffix_regexp is anchored at both ends, so a suffix is split into (name)(number) as a whole whatever the order of the alternatives",
+              f"suffix_regexp {pat!r} is not anchored at both ends: with `.match()` the first alternative that is a prefix wins (`pre1` splits as name `p`) or trailing text is ignored", node=node)
     pat2, node2 = regex_literal(ctx, cpv, "isvalid_version_re")
     br2 = rx.branches(pat2)
     ctx.check("R1", cpv, any(b == set(PMS_SUFFIXES) for b in br2), "isvalid_version_re-alts",
@@ -274,6 +287,37 @@ def run(ctx):
            + [("pkgcore.ebuild.restricts", "_VersionMatch.match", (), "matching must not change the restriction or the package")])
     ctx.floor("R6", 10)
 
+    # ---- R8 ver_cmp answers with a sign, not a magnitude ---------------------------------------------------------
+    # _VersionMatch.match tests `ver_cmp(...) in self.vals` against tuples over {-1, 0, 1}: a result such as 2 or -25 has the
+    # right sign for `<`/`>` tests on CPVs and matches no version operator at all.
+    vm = P.func("pkgcore.ebuild.restricts", "_VersionMatch.match")
+    member = [c for c in ast.walk(vm.node) if isinstance(c, ast.Compare) and len(c.ops) == 1 and isinstance(c.ops[0], (ast.In, ast.NotIn))
+              and isinstance(c.left, ast.Call) and (dotted(c.left.func) or "").endswith("ver_cmp")]
+    if member:
+        fx = effects.engine(P).fx(ver_cmp)
+
+        def signed(e, at, depth=0):
+            if isinstance(e, ast.Constant):
+                return e.value in (-1, 0, 1) and not isinstance(e.value, bool)
+            if isinstance(e, ast.UnaryOp) and isinstance(e.op, ast.USub):
+                return isinstance(e.operand, ast.Constant) and e.operand.value in (0, 1)
+            if isinstance(e, ast.Call):
+                return dotted(e.func) == "cmp"
+            if isinstance(e, ast.IfExp):
+                return signed(e.body, at, depth) and signed(e.orelse, at, depth)
+            if isinstance(e, ast.Name) and depth < 4:
+                ds = fx.defs_at(e.id, at)
+                return bool(ds) and all(d.kind == "assign" and d.value is not None and signed(d.value, d.stmt, depth + 1) for d in ds)
+            return False
+        for r in A.returns(ver_cmp.node):
+            ctx.check("R8", ver_cmp, r.value is not None and signed(r.value, r), f"sign-result:{A.unparse(r.value)[:40] if r.value is not None else 'None'}",
+                      f"`{A.unparse(r)}` is -1, 0, 1 or a cmp(...) result",
+                      f"ver_cmp returns `{A.unparse(r.value) if r.value is not None else None}`, which is not confined to -1 / 0 / 1: _VersionMatch.match looks the result up in "
+                      f"a tuple over (-1, 0, 1), so a magnitude matches no operator although its sign is right", node=r)
+        ctx.floor("R8", 8)
+    else:
+        ctx.ob("R8", vm, "_VersionMatch.match no longer tests the comparator's result by membership: any correctly signed result is acceptable")
+
 MUTANTS = [
     {"name": "suffix-order-swap", "file": "src/pkgcore/ebuild/cpv.py", "old": '"pre": -2, "p": 1, "alpha": -4, "beta": -3, "rc": -1', "new": '"pre": -1, "p": 1, "alpha": -4, "beta": -3, "rc": -2', "rule": "R1"},
     {"name": "cmp-swapped-end-of-list", "file": "src/pkgcore/ebuild/cpv.py", "old": "                return cmp(val, 0)\n", "new": "                return cmp(0, val)\n", "rule": "R5"},
@@ -286,7 +330,11 @@ MUTANTS = [
 MUTANTS += [
     {"name": "split-memoised-in-module-dict", "file": "src/pkgcore/ebuild/cpv.py", "old": '        ver_parts1 = parts1[0].split(".")\n', "new": '        ver_parts1 = suffix_value.setdefault(parts1[0], parts1[0].split("."))\n', "rule": "R6"},
 ]
+MUTANTS += [
+    {"name": "letter-difference-instead-of-sign", "file": "src/pkgcore/ebuild/cpv.py", "old": "            return cmp(letters[0], letters[1])\n", "new": "            return letters[0] - letters[1]\n", "rule": "R8"},
+]
 TWINS = [
+    {"name": "sign-through-a-local", "file": "src/pkgcore/ebuild/cpv.py", "old": "            return cmp(letters[0], letters[1])\n", "new": "            res = cmp(letters[0], letters[1])\n            return res\n"},
     {"name": "split-copied-from-memo", "file": "src/pkgcore/ebuild/cpv.py", "old": '        ver_parts1 = parts1[0].split(".")\n', "new": '        ver_parts1 = list(suffix_value.get(parts1[0], parts1[0].split(".")))\n'},
     {"name": "rename-local", "file": "src/pkgcore/ebuild/cpv.py", "old": "            c = cmp(v1, v2)\n            if c:\n                return c\n", "new": "            res = cmp(v1, v2)\n            if res:\n                return res\n"},
 ]
